@@ -66,6 +66,7 @@ func main() {
 	target := flag.String("target", "", "concretisation mode: only obligations whose clause contains this text and (if given after '@') whose position matches")
 	verbose := flag.Bool("v", false, "verbose")
 	knownFuncsF := flag.String("knownfuncs", "", "JSON file: package path -> functions present on the baseline tree; a same-package callee without contract that is not listed (a helper introduced by the change) is executed in place")
+	noAssumeF := flag.String("noassume", "", "JSON file: list of clause keys (pkg::func :: clause) that are open findings - checked but never assumed")
 	loopSigsF := flag.String("loopsigs", "", "JSON file: pkg::func -> loop signatures recorded on the baseline tree (loops that were merely reordered keep their contract ordinals)")
 	flag.Parse()
 
@@ -95,6 +96,16 @@ func main() {
 	if err == nil && *knownFuncsF != "" {
 		if data, e := os.ReadFile(*knownFuncsF); e == nil {
 			_ = json.Unmarshal(data, &w.knownFuncs)
+		}
+	}
+	if err == nil && *noAssumeF != "" {
+		if data, e := os.ReadFile(*noAssumeF); e == nil {
+			var l []string
+			_ = json.Unmarshal(data, &l)
+			w.noAssume = map[string]bool{}
+			for _, k := range l {
+				w.noAssume[k] = true
+			}
 		}
 	}
 	if err == nil && *loopSigsF != "" {
